@@ -79,6 +79,14 @@ class ModuleInfo:
                     except Exception:
                         pass
 
+        # a module-level name that some function re-binds through `global` is state, not a constant
+        self.mutated_globals = set()
+        for n in ast.walk(self.tree):
+            if isinstance(n, ast.Global):
+                self.mutated_globals.update(n.names)
+        for name in self.mutated_globals:
+            self.consts.pop(name, None)
+
     def unit_text(self, qual):
         node = self.find(qual)
         return ast.get_source_segment(self.text, node)
